@@ -63,6 +63,7 @@ namespace
 
   std::string tmpdir = "/tmp";
   bool dump_saves = false;
+  bool only_finite = false;      // C13 mode: replay any specification's behaviours, judge only totality and finiteness
   std::string cur_id;
   std::string cur_labels = "[]";
   long cur_index = -1;
@@ -207,7 +208,7 @@ namespace
           else
             throw HarnessError("unknown api " + H.api);
           H.alive = true;
-          if (expect == "throw")
+          if (expect == "throw" && !only_finite)
             mism("create", "construction succeeded but the specification says the document must be rejected");
         }
       catch (const HarnessError &)
@@ -218,7 +219,7 @@ namespace
         {
           ++stats.threw_create;
           H.alive = false;
-          if (expect == "ok")
+          if (expect == "ok" && !only_finite)
             mism("create", std::string("construction threw: ") + e.what());
           else if (std::string(e.what()).empty())
             mism("create", "exception without a message");
@@ -534,7 +535,7 @@ namespace
           if (std::string(e["k"].GetString()) == "throws") expect_throw = true;
       if (!ok)
         {
-          if (!expect_throw && !may_throw) mism("query", "query threw: " + what);
+          if (!expect_throw && !may_throw && !only_finite) mism("query", "query threw: " + what);
           else if (what.empty()) mism("query", "exception without a message");
           if (expect_throw) { ++stats.checks; ++stats.by_check["throws"]; }
           return;
@@ -548,6 +549,13 @@ namespace
               for (double d : out) std::cout << " " << fmt(d);
               std::cout << std::endl;
             }
+        }
+      if (only_finite)
+        {
+          ++stats.checks; ++stats.by_check["finite"];
+          for (size_t i = 0; i < out.size(); ++i)
+            if (!std::isfinite(out[i])) { mism("finite", "non-finite value returned", static_cast<long>(i), fmt(out[i]), "finite"); break; }
+          return;
         }
       check_expectations(s, H, out);
     }
@@ -629,10 +637,18 @@ namespace
           catch (const std::exception &e)
             {
               ++stats.threw_query;
-              mism("query", std::string("query threw: ") + e.what());
+              if (!only_finite) mism("query", std::string("query threw: ") + e.what());
               continue;
             }
           (void) off;
+          if (only_finite)
+            {
+              ++stats.checks; ++stats.by_check["finite"];
+              for (size_t i = 0; i < out.size(); ++i)
+                if (!std::isfinite(out[i]))
+                  { mism("finite", "row [" + fmt(c[0]) + "," + fmt(c[1]) + "," + fmt(c[2]) + "," + fmt(c[3]) + "]: non-finite value returned", static_cast<long>(i), fmt(out[i]), "finite"); break; }
+              continue;
+            }
           if (s.HasMember("h2"))     // the same query on a twin world must give bit-identical values
             {
               Handle &H2 = handle(s["h2"].GetInt());
@@ -940,6 +956,7 @@ namespace
           else if (cur_op == "release") do_release(s);
           else if (cur_op == "q") do_query(s);
           else if (cur_op == "qtable") do_qtable(s);
+          else if (only_finite && (cur_op == "dtable" || cur_op == "atable" || cur_op == "size" || cur_op == "dist")) ++stats.skipped_steps;   // internal sentinels (inf = no foot) are not public query results
           else if (cur_op == "dtable") do_dtable(s);
           else if (cur_op == "atable") do_atable(s);
           else if (cur_op == "size") do_size(s);
@@ -968,6 +985,7 @@ int main(int argc, char **argv)
       else if (a == "--tmp") tmpdir = argv[i+1];
       else if (a == "--timeout") timeout_s = static_cast<unsigned int>(std::atoi(argv[i+1]));
       else if (a == "--dump") dump_saves = std::atoi(argv[i+1]) != 0;
+      else if (a == "--only-finite") only_finite = std::atoi(argv[i+1]) != 0;
     }
   {
     // private working directory: relative output directories of create_world land here
